@@ -41,7 +41,8 @@ def ctx_check(p, e, o) -> Optional[Dict[str, Any]]:
 def closed_page_programs(rnd: random.Random, n: int, simple: bool = False) -> List[Dict[str, Any]]:
     """Isolated-mode programs whose page passes nothing: the page consists of text and component
     tags with constant kwargs and text-only fills.  Everything else is in the library."""
-    g = P.Gen(rnd, depth=2, width=3, collide=True, loops=False) if simple else P.Gen(rnd, depth=3, width=3, collide=True)
+    # simple: ONE component, no loops - only the top-level render is under test there
+    g = P.Gen(rnd, depth=2, width=3, collide=True, loops=False, ncomps=(1, 1)) if simple else P.Gen(rnd, depth=3, width=3, collide=True)
     out = []
     for i in range(n):
         p = g.program(i + 1, "isolated")
